@@ -83,7 +83,9 @@ class UpTree:
 
 
 def build_request(case, rnd):
-    path = "/" + "/".join(case["path"])
+    # "n" is a name that does not exist yet; with _long it is as long as a file name may be (231..255 bytes): the
+    # name a store uses for its temporary file must not be longer than the name it stores under
+    path = "/" + "/".join(("n" * case["_long"] if s_ == "n" and case.get("_long") else s_) for s_ in case["path"])
     if case["size"] == "zero":
         content = b""
     elif case["size"] == "ok":
@@ -112,7 +114,7 @@ def make_handler(case, up, rnd=None):
     """The upload handler for a case: built directly, or - two thirds of the time - the way a deployment builds it:
     ServerConfig (keyword form or a TOML file) -> get_upload_handler(), with the token list as an operator may write it
     (blank entries beside or instead of the real token: blank entries authorise nobody)."""
-    types = {"nolist": None, "allowed": ["text/plain", "text/gemini"], "refused": ["text/gemini"]}[case["mime"]]
+    types = {"nolist": None, "allowed": ["text/plain", "text/gemini"], "refused": ["text/gemini"], "emptylist": []}[case["mime"]]
     if case["token"] == "notneeded":
         tokens = None
     elif case["token"] == "right":
@@ -454,8 +456,10 @@ def main(pid="C14"):
                 for _ in range(reps):
                     cases.append({"L": slot, "path": p, "size": rnd.choice(["zero", "ok", "ok", "over"]),
                                   "token": rnd.choice(["notneeded", "notneeded", "right", "wrong", "missing"]),
-                                  "mime": rnd.choice(["nolist", "allowed", "allowed", "refused"]),
+                                  "mime": rnd.choice(["nolist", "allowed", "allowed", "refused", "emptylist"]),
                                   "deleteOn": rnd.random() < 0.6, "fault": "none"})
+                    if "n" in p and rnd.random() < 0.3:
+                        cases[-1]["_long"] = rnd.choice([200, 231, 240, 255])
         # storage faults: on requests that reach the storing stage
         nf = 1500 if thorough else 250
         for _ in range(nf):
